@@ -260,6 +260,11 @@ func decodePubKey(pubKey kyber.Point) (pubKeyCoor [4]*big.Int, err error) {
 	if err != nil {
 		return
 	}
+	if len(pubKeyMar) < 32*4+1 {
+		// the point at infinity marshals to a single byte
+		err = errors.New("public key is the point at infinity")
+		return
+	}
 
 	for i := 0; i < 4; i++ {
 		pubKeyCoor[i] = new(big.Int).SetBytes(pubKeyMar[32*i+1 : 32*i+33])
